@@ -78,7 +78,8 @@ fn el<V: Show + FromMeta>(m: &syn::Meta) -> Result<String, darling_core::Error> 
     V::from_meta(m).map(|v| v.show())
 }
 
-pub const VALS: &[&str] = &["bool", "u8", "String", "Expr", "map"];
+// (the last three override `from_meta` itself, not the per-form hooks: an entry must reach them through `from_meta`)
+pub const VALS: &[&str] = &["bool", "u8", "String", "Expr", "map", "Option<u8>", "Box<u8>", "SpannedValue<u8>"];
 pub const MAPS: &[&str] = &["HashMap<String>", "HashMap<Ident>", "HashMap<Path>", "BTreeMap<String>", "BTreeMap<Ident>"];
 
 fn conv_for(map: &str, val: &str) -> (MapConv, ElConv) {
@@ -100,7 +101,28 @@ fn conv_for(map: &str, val: &str) -> (MapConv, ElConv) {
         "String" => pick!(String),
         "Expr" => pick!(syn::Expr),
         "map" => pick!(HashMap<String, u8>),
+        "Option<u8>" => pick!(Option<u8>),
+        "Box<u8>" => pick!(Box<u8>),
+        "SpannedValue<u8>" => pick!(darling_core::util::SpannedValue<u8>),
         _ => unreachable!(),
+    }
+}
+impl<T: Show> Show for Option<T> {
+    fn show(&self) -> String {
+        match self {
+            Some(x) => format!("Some({})", x.show()),
+            None => "None".to_string(),
+        }
+    }
+}
+impl<T: Show> Show for Box<T> {
+    fn show(&self) -> String {
+        (**self).show()
+    }
+}
+impl<T: Show> Show for darling_core::util::SpannedValue<T> {
+    fn show(&self) -> String {
+        (**self).show()
     }
 }
 
@@ -124,8 +146,8 @@ fn gen_value(d: &mut D, val: &str, good: bool) -> String {
     let s: &[&str] = match (val, good) {
         ("bool", true) => &["", " = true", " = false", " = \"true\""],
         ("bool", false) => &[" = 5", " = \"yes\"", "(x)", " = 'c'"],
-        ("u8", true) => &[" = 5", " = \"7\"", " = 0xff", " = 0"],
-        ("u8", false) => &[" = 300", " = \"x\"", "", "(1)", " = -1"],
+        ("u8", true) | ("Option<u8>", true) | ("Box<u8>", true) | ("SpannedValue<u8>", true) => &[" = 5", " = \"7\"", " = 0xff", " = 0"],
+        ("u8", false) | ("Option<u8>", false) | ("Box<u8>", false) | ("SpannedValue<u8>", false) => &[" = 300", " = \"x\"", "", "(1)", " = -1"],
         ("String", true) => &[" = \"s\"", " = r#\"r\"#", " = \"\""],
         ("String", false) => &[" = 5", "", "(x)", " = true"],
         ("Expr", true) => &[" = x + 1", " = \"y * 2\"", " = f(a, b)", " = [1, 2]", " = 5"],
